@@ -2,7 +2,7 @@
 # Runs the pinned baseline on a checkout (default /repo) and lists stable-pass tests that no longer pass.
 REPO="${1:-/repo}"
 OUT="$(mktemp -d)"
-cd "$REPO" && /venv/bin/python -m pytest -ra -q -p no:cacheprovider --timeout=900 --continue-on-collection-errors --junitxml="$OUT/j.xml" >"$OUT/log" 2>&1
+cd "$REPO" && PYTHONPATH="$REPO" JAX_PLATFORMS=cpu /venv/bin/python -m pytest -ra -q -p no:cacheprovider --timeout=900 --continue-on-collection-errors --junitxml="$OUT/j.xml" >"$OUT/log" 2>&1
 python3-vt - "$OUT/j.xml" <<'PY'
 import json, sys, xml.etree.ElementTree as ET
 stable = set(json.load(open('/root/.vp/BASELINE.json'))['stable_pass'])
